@@ -25,7 +25,12 @@ def _bind_repo():
               % (gffutils.__file__, repo))
         sys.exit(2)
     import logging
+    import warnings
 
+    warnings.simplefilter("ignore")
+    from gv.engine import pool
+
+    pool.quiet_stderr()
     for name in ("gffutils.create", "gffutils.parser"):
         lg = logging.getLogger(name)
         lg.handlers[:] = [logging.NullHandler()]
